@@ -88,6 +88,16 @@ def shape_strategy(max_turns=3):
     dz = st.one_of(st.just(0.0), st.floats(min_value=-20, max_value=20))
     off = st.floats(min_value=-30, max_value=30, allow_nan=False)
     nz = off.filter(lambda v: abs(v) > 0.5)
+    # "land": the request ends at absolute Z exactly 0 ("z0"; offset -z in
+    # relative mode), or (polyline/spline only) at X = Y = 0 exactly ("xy0"):
+    # exact zeros are falsy, and a target of 0 is as valid as any other
+    land = st.sampled_from([None, None, None, None, None, "z0", "z0", "xy0"])
+    return st.tuples(_shape_strategy(max_turns, ang, rad, dz, off, nz), land).map(
+        lambda t: dict(t[0], land=t[1]) if t[1] else t[0])
+
+
+def _shape_strategy(max_turns, ang, rad, dz, off, nz):
+    from hypothesis import strategies as st
     return st.one_of(
         st.fixed_dictionaries({"shape": st.just("arc"), "r": rad, "a0": ang,
                                "sweep": st.floats(min_value=0.05, max_value=2 * math.pi - 0.05),
@@ -133,6 +143,25 @@ def build_shape(g, d, clockwise=None):
     cw = (g.state.direction.value == "clockwise") if clockwise is None else clockwise
     sgn = -1.0 if cw else 1.0
     s = d["shape"]
+    land = d.get("land")
+    if land == "z0" and s != "circle":
+        if s in ("spline", "polyline"):
+            pts = [tuple(q) for q in d["pts"]]
+            zsum = p[2]
+            for q in pts[:-1]:
+                zsum = zsum + q[2]
+            pts[-1] = (pts[-1][0], pts[-1][1], -zsum)
+            d = dict(d, pts=pts, zgiven=True)
+        else:
+            d = dict(d, dz=-p[2], zgiven=True)
+    if land == "xy0" and s in ("spline", "polyline"):
+        pts = [tuple(q) for q in d["pts"]]
+        xs, ys = p[0], p[1]
+        for q in pts[:-1]:
+            xs, ys = xs + q[0], ys + q[1]
+        if abs(xs) > 0.5 or abs(ys) > 0.5 or s == "polyline":
+            pts[-1] = (-xs, -ys, pts[-1][2])
+            d = dict(d, pts=pts)
     if d.get("full") == "nominal":
         # the caller works with the nominal (rounded) coordinates of the
         # current position, as after a traced path that "ended on target"
